@@ -564,6 +564,21 @@ static void davidson_case(const Desc& d, const MatL& AL0, const char* store, int
                 Ast(i, j) = 7.5 + 0.25 * ((i + 2 * j) % 5);
     MatT Am = MatT(Ast.sparseView().template cast<double>());
     OpType op(Am);
+    {
+        // the parameters the search-space bookkeeping starts from (constructor arguments as written by the caller; 0 = default /
+        // not set): the specification derives the values actually used (Davidson.tla, D_Params) and replays the JDIter hook events
+        Line b("DavBegin");
+        b.i("n", n).i("nev", nev).i("i0", init > 0 ? init : 2 * nev).i("m0", init > 0 ? maxs : 10 * nev).i("c0", corr > 0 ? corr : 0);
+        b.i("gcols", guess ? std::max(nev, 2) + 1 : 0);
+        out().put(b);
+    }
+    // hook events of the Davidson loop (JDIter) go into the trace while this case runs
+    TraceSink jdsink;
+    struct SinkGuard
+    {
+        explicit SinkGuard(Spectra::verif::Sink* s) { Spectra::verif::sink() = s; }
+        ~SinkGuard() { Spectra::verif::sink() = NULL; }
+    } sink_guard(&jdsink);
     Line l("Dav");
     l.str("st", store).i("n", n).i("qn", q((LD) n)).i("nev", nev).i("rule", rule).i("qtol", q((LD) tol)).i("maxit", maxit).i("guess", guess).i("init", init).i("maxs", maxs).i("corr", corr);
     int thr = 0;
